@@ -319,6 +319,9 @@ func parseContractFile(path string) (*ContractFile, error) {
 				if err != nil {
 					return nil, err
 				}
+				if lem.Goal != nil {
+					return nil, fail("lemma " + lem.Name + ": more than one holds clause (write one conjunction)")
+				}
 				lem.Goal = c
 			case "props":
 				lem.Props = strings.Fields(rest)
